@@ -380,16 +380,18 @@ class TOFUDatabase:
         if not isinstance(data["hosts"], dict):
             raise ValueError("Invalid TOML: 'hosts' must be a table")
 
-        # Clear database if not merging
-        if not merge:
-            self.clear()
-
         added_count = 0
         updated_count = 0
         skipped_count = 0
 
+        # Everything below happens in one transaction on one connection: either the
+        # whole import is committed at the end or the database is left untouched
         with self._connection() as conn:
             cursor = conn.cursor()
+
+            # Clear database if not merging
+            if not merge:
+                cursor.execute("DELETE FROM known_hosts")
 
             for key, host_data in data["hosts"].items():
                 # Validate required fields
@@ -424,8 +426,14 @@ class TOFUDatabase:
                         f"has invalid fingerprint format: {fingerprint}"
                     )
 
-                # Check if host already exists
-                existing = self.get_host_info(hostname, port)
+                # Check if host already exists (on this connection, so that rows
+                # changed earlier in this import are seen)
+                cursor.execute(
+                    "SELECT fingerprint FROM known_hosts "
+                    "WHERE hostname = ? AND port = ?",
+                    (hostname, port),
+                )
+                existing = cursor.fetchone()
 
                 if existing is None:
                     # New host - add it
